@@ -500,20 +500,23 @@ def judge_host_environment():
     import sys
     envs = {'piped': {}, 'terminal': {'TERM': 'xterm-256color'}, 'terminal-TERM=dumb': {'TERM': 'dumb'}, 'piped-NO_COLOR': {'NO_COLOR': '1'},
             'piped-FORCE_COLOR': {'FORCE_COLOR': '1'}, 'piped-ANSI_COLORS_DISABLED': {'ANSI_COLORS_DISABLED': '1'},
-            'piped-CLICOLOR_FORCE+COLUMNS=20': {'CLICOLOR_FORCE': '1', 'CLICOLOR': '0', 'COLUMNS': '20', 'LINES': '5'}}
+            'piped-CLICOLOR_FORCE+COLUMNS=20': {'CLICOLOR_FORCE': '1', 'CLICOLOR': '0', 'COLUMNS': '20', 'LINES': '5'},
+            # the interpreter the tool is installed under treats bytes / str mix-ups and warnings as errors (python -bb -W error)
+            'piped-interpreter-flags--bb--W-error': {'VERIF_INTERPRETER_FLAGS': '-bb -W error'}}
     seen = {}
     for label, extra in envs.items():
         env = {k: v for k, v in os.environ.items() if k not in ('TERM', 'NO_COLOR', 'FORCE_COLOR', 'ANSI_COLORS_DISABLED', 'CLICOLOR', 'CLICOLOR_FORCE', 'COLUMNS', 'LINES', 'COLORTERM')}
         env.update(extra)
         r, w = os.pipe()
         env['VERIF_OUT_FD'] = str(w)
+        interp = [sys.executable] + env.pop('VERIF_INTERPRETER_FLAGS', '').split()
         master = slave = None
         try:
             if label.startswith('terminal'):
                 master, slave = pty.openpty()
-                proc = subprocess.run([sys.executable, '-c', ENV_CHILD], stdin=subprocess.DEVNULL, stdout=slave, stderr=subprocess.PIPE, env=env, pass_fds=(w,), timeout=120)
+                proc = subprocess.run(interp + ['-c', ENV_CHILD], stdin=subprocess.DEVNULL, stdout=slave, stderr=subprocess.PIPE, env=env, pass_fds=(w,), timeout=120)
             else:
-                proc = subprocess.run([sys.executable, '-c', ENV_CHILD], stdin=subprocess.DEVNULL, stdout=subprocess.PIPE, stderr=subprocess.PIPE, env=env, pass_fds=(w,), timeout=120)
+                proc = subprocess.run(interp + ['-c', ENV_CHILD], stdin=subprocess.DEVNULL, stdout=subprocess.PIPE, stderr=subprocess.PIPE, env=env, pass_fds=(w,), timeout=120)
             os.close(w)
             w = None
             data = b''
@@ -543,6 +546,57 @@ def judge_host_environment():
                 done.add(k)
                 bad.append(('host-dependent-output:environment-of-the-process@' + k, {'environment': label, 'got': repr(got[k])[:200], 'piped_without_variables': repr(ref[k])[:200]}))
     return bad
+
+
+def judge_directory_order():
+    """the order in which the host's file system enumerates a directory (by name, by hash, newest first) is the host's: if the table
+    loader accepts a directory of code lists at all (the pinned tree refuses one), what it loads does not depend on that order."""
+    import glob as _glob
+    import os
+    import pathlib
+    import shutil
+    import tempfile
+    from pykdebugparser.trace_codes import from_trace_codes_file
+    d = tempfile.mkdtemp(prefix='verif_c18_dir_')
+    real = (os.listdir, os.scandir, pathlib.Path.iterdir, _glob.glob)
+    try:
+        for name, text in (('a.codes', '0x40c0018 BSC_close\n0x1 ONLY_A\n'), ('b.codes', '0x40c0018 BSC_sys_close\n0x2 ONLY_B\n'), ('c.codes', '0x40c0018 BSC_shut\n')):
+            with open(os.path.join(d, name), 'w') as f:
+                f.write(text)
+        seen = {}
+        for order in ('as-the-host-gives-it', 'sorted', 'reverse-sorted'):
+            if order != 'as-the-host-gives-it':
+                rev = order == 'reverse-sorted'
+                os.listdir = lambda path='.', _r=rev: sorted(real[0](path), reverse=_r)
+
+                class _Scan(list):
+                    def __enter__(self):
+                        return self
+
+                    def __exit__(self, *a):
+                        return False
+
+                    def close(self):
+                        pass
+                os.scandir = lambda path='.', _r=rev: _Scan(sorted(real[1](path), key=lambda e: e.name, reverse=_r))
+                pathlib.Path.iterdir = lambda self, _r=rev: iter(sorted(real[2](self), reverse=_r))
+                _glob.glob = lambda *a, _r=rev, **k: sorted(real[3](*a, **k), reverse=_r)
+            try:
+                seen[order] = sorted(dict(from_trace_codes_file(d)).items())
+            except Exception as ex:
+                seen[order] = 'REFUSED ' + type(ex).__name__
+            try:
+                seen[order + ':path-object'] = sorted(dict(from_trace_codes_file(pathlib.Path(d))).items())
+            except Exception as ex:
+                seen[order + ':path-object'] = 'REFUSED ' + type(ex).__name__
+    finally:
+        os.listdir, os.scandir, pathlib.Path.iterdir, _glob.glob = real
+        shutil.rmtree(d, ignore_errors=True)
+    for suffix in ('', ':path-object'):
+        vals = [seen[o + suffix] for o in ('as-the-host-gives-it', 'sorted', 'reverse-sorted')]
+        if any(v != vals[0] for v in vals):
+            return [('host-dependent-output:directory-enumeration-order-of-the-host@from_trace_codes_file', {'results': {o: repr(seen[o + suffix])[:160] for o in ('sorted', 'reverse-sorted')}})]
+    return []
 
 
 def judge_host_locale():
@@ -665,6 +719,9 @@ class C18(Check):
                 acc.violation(sig, {'kind': 'locale'}, detail)
             acc.case(nontrivial=True, transitions=12, state=h64('locale'))
         elif kind == 'environment':
+            for sig, detail in judge_directory_order():
+                acc.violation(sig, {'kind': 'directory-order'}, detail)
+            acc.case(nontrivial=True, transitions=6, state=h64('directory-order'))
             for sig, detail in judge_host_environment():
                 acc.violation(sig, {'kind': 'environment'}, detail)
             acc.case(nontrivial=True, transitions=56, state=h64('environment'))
@@ -683,6 +740,8 @@ class C18(Check):
             return judge_host_timezone()
         if case.get('kind') == 'locale':
             return judge_host_locale()
+        if case.get('kind') == 'directory-order':
+            return judge_directory_order()
         if case.get('kind') == 'environment':
             return judge_host_environment()
         if case.get('kind') == 'datamodel':
